@@ -1116,7 +1116,7 @@ def lastWs (V : List DCh) : Prop := ∃ V3 w, V = V3 ++ [w] ∧ isWsD w = true
 /-- What the text branch of `xml.go` does to a text token `d`, at the level of decoded characters:
 `V1` = characters after `ReplaceMultipleWhitespaceAndEntities`, `V2` = after the optional left trim. -/
 theorem text_token (o : XmlOpts) (om : Bool) (d : List Char) (rest : List XTok) (hd : WfText d) :
-    ∃ V1 : List DCh,
+    ∃ V1 : List DCh, V1 ≠ [] ∧
       (∀ K p ps E, canonGo K p ps (V1.map .ch ++ E) = canonGo K p ps ((decodeText d).map .ch ++ E)) ∧
       headIsWsD V1 = headIsWsD (decodeText d) ∧
       ∃ V2, (V2 = V1 ∨ (om = true ∧ ∃ w, isWsD w = true ∧ V1 = w :: V2)) ∧
@@ -1124,11 +1124,12 @@ theorem text_token (o : XmlOpts) (om : Bool) (d : List Char) (rest : List XTok) 
          (decodeText (textStep o om d rest).1 = V2 ∧ V2 ≠ [] ∧
             (((textStep o om d rest).2 = true ∧ lastWs V2) ∨ (textStep o om d rest).2 = false)) ∨
          (∃ V3 w, V2 = V3 ++ [w] ∧ isWsD w = true ∧ decodeText (textStep o om d rest).1 = V3 ∧
-            (textStep o om d rest).2 = false ∧ peekTrim o rest = true)) := by
+            (textStep o om d rest).2 = false ∧ peekTrim o rest = true)) ∧
+        ((textStep o om d rest).1 = [] ∨ WfText (textStep o om d rest).1) := by
   obtain ⟨us, hok, rfl, hne⟩ := hd
   obtain ⟨us', e1, e2, e3, e4⟩ := scan_text us hok
   have hne' := e4 hne
-  refine ⟨us'.map (XUnit.val false), ?_, ?_, ?_⟩
+  refine ⟨us'.map (XUnit.val false), by simpa using hne', ?_, ?_, ?_⟩
   · intro K p ps E
     rw [decodeText_flat us hok]
     exact canon_sim K e3 E p ps
@@ -1167,7 +1168,7 @@ theorem text_token (o : XmlOpts) (om : Bool) (d : List Char) (rest : List XTok) 
       simp only [textStep, e1, k2]
     rw [hstep]
     by_cases hemp : u2 = []
-    · left; subst hemp; simp [flat]
+    · subst hemp; exact ⟨Or.inl (by simp [flat]), Or.inl (by simp [flat])⟩
     · have hfe : (flat u2).isEmpty = false := by
         simp only [List.isEmpty_eq_false_iff, ne_eq, flat_eq_nil]; exact hemp
       rw [hfe]
@@ -1176,6 +1177,7 @@ theorem text_token (o : XmlOpts) (om : Bool) (d : List Char) (rest : List XTok) 
       obtain ⟨u3, l, rfl⟩ := exists_concat u2 hemp
       have k1' : u3.all XUnit.ok = true ∧ l.ok = true := by
         simpa [List.all_append] using k1
+      have hwfall : WfText (flat (u3 ++ [l])) := ⟨_, k1, rfl, hemp⟩
       obtain ⟨pre, hpre⟩ := chars_last l
       have hflat : flat (u3 ++ [l]) = (flat u3 ++ pre) ++ [match l with | .lit c => c | _ => ';'] := by
         rw [flat_append]; simp [flat, hpre]
@@ -1196,45 +1198,693 @@ theorem text_token (o : XmlOpts) (om : Bool) (d : List Char) (rest : List XTok) 
             simpa [XUnit.val] using isWsD_lit_of_isS c hs
           rw [if_pos hw]
           by_cases hp : peekTrim o rest = true
-          · right; right
-            rw [if_pos hp]
-            refine ⟨u3.map (XUnit.val false), (XUnit.lit c).val false, by simp, hwd, ?_, rfl, hp⟩
+          · rw [if_pos hp]
             simp only [List.dropLast_concat]
-            exact decodeText_flat u3 k1'.1
-          · right; left
-            rw [if_neg hp]
-            refine ⟨?_, by simp, Or.inl ⟨rfl, u3.map (XUnit.val false), (XUnit.lit c).val false, by simp, hwd⟩⟩
-            simp only
+            refine ⟨Or.inr (Or.inr ⟨u3.map (XUnit.val false), (XUnit.lit c).val false, by simp, hwd,
+              decodeText_flat u3 k1'.1, trivial, hp⟩), ?_⟩
+            by_cases h3 : u3 = []
+            · left; subst h3; simp [flat]
+            · right; exact ⟨u3, k1'.1, rfl, h3⟩
+          · rw [if_neg hp]
+            refine ⟨Or.inr (Or.inl ⟨?_, by simp,
+              Or.inl ⟨rfl, u3.map (XUnit.val false), (XUnit.lit c).val false, by simp, hwd⟩⟩), Or.inr ?_⟩
+            · simp only
+              rw [← hflat]; exact decodeText_flat _ k1
+            · simp only; rw [← hflat]; exact hwfall
+        · rw [if_neg hw]
+          refine ⟨Or.inr (Or.inl ⟨?_, by simp, Or.inr rfl⟩), Or.inr ?_⟩
+          · simp only
             rw [← hflat]; exact decodeText_flat _ k1
-        · right; left
-          rw [if_neg hw]
-          refine ⟨?_, by simp, Or.inr rfl⟩
-          simp only
-          rw [← hflat]; exact decodeText_flat _ k1
+          · simp only; rw [← hflat]; exact hwfall
       | named nm =>
         simp only at hflat
-        right; left
         have : endsWs (flat (u3 ++ [XUnit.named nm])) = false := by
           rw [hflat, endsWs_append_singleton]; decide
         rw [this]
         simp only [Bool.false_eq_true, if_false]
-        exact ⟨decodeText_flat _ k1, by simp, Or.inr trivial⟩
+        exact ⟨Or.inr (Or.inl ⟨decodeText_flat _ k1, by simp, Or.inr trivial⟩), Or.inr hwfall⟩
       | dec ds =>
         simp only at hflat
-        right; left
         have : endsWs (flat (u3 ++ [XUnit.dec ds])) = false := by
           rw [hflat, endsWs_append_singleton]; decide
         rw [this]
         simp only [Bool.false_eq_true, if_false]
-        exact ⟨decodeText_flat _ k1, by simp, Or.inr trivial⟩
+        exact ⟨Or.inr (Or.inl ⟨decodeText_flat _ k1, by simp, Or.inr trivial⟩), Or.inr hwfall⟩
       | hex ds =>
         simp only at hflat
-        right; left
         have : endsWs (flat (u3 ++ [XUnit.hex ds])) = false := by
           rw [hflat, endsWs_append_singleton]; decide
         rw [this]
         simp only [Bool.false_eq_true, if_false]
-        exact ⟨decodeText_flat _ k1, by simp, Or.inr trivial⟩
+        exact ⟨Or.inr (Or.inl ⟨decodeText_flat _ k1, by simp, Or.inr trivial⟩), Or.inr hwfall⟩
+
+/-! ### attribute values -/
+
+theorem escQuote_append (q : Char) (esc a b : List Char) :
+    escQuote q esc (a ++ b) = escQuote q esc a ++ escQuote q esc b := by
+  induction a with
+  | nil => simp [escQuote]
+  | cons c a ih =>
+    simp only [List.cons_append, escQuote]
+    split <;> simp [ih]
+
+theorem escQuote_id (q : Char) (esc l : List Char) (h : ∀ c ∈ l, c ≠ q) : escQuote q esc l = l := by
+  induction l with
+  | nil => rfl
+  | cons c l ih =>
+    have hc : (c == q) = false := by simpa using h c (by simp)
+    simp only [escQuote, hc, Bool.false_eq_true, if_false]
+    rw [ih (fun x hx => h x (by simp [hx]))]
+
+theorem ref_chars_noquote (u : XUnit) (hu : u.ok = true) (hr : ∀ c, u ≠ .lit c) (q : Char)
+    (hq : q = '"' ∨ q = '\'') : ∀ c ∈ u.chars, c ≠ q := by
+  have nq : ∀ c, isNameChar c = true → c ≠ q := by
+    intro c hc h; subst h; rcases hq with r | r <;> subst r <;> revert hc <;> decide
+  have hq' : ∀ c, isHex c = true → c ≠ q := by
+    intro c hc h; subst h; rcases hq with r | r <;> subst r <;> revert hc <;> decide
+  have k1 : '&' ≠ q := by rcases hq with r | r <;> subst r <;> decide
+  have k2 : '#' ≠ q := by rcases hq with r | r <;> subst r <;> decide
+  have k3 : 'x' ≠ q := by rcases hq with r | r <;> subst r <;> decide
+  have k4 : ';' ≠ q := by rcases hq with r | r <;> subst r <;> decide
+  cases u with
+  | lit c => exact absurd rfl (hr c)
+  | named nm =>
+    simp only [XUnit.ok, Bool.and_eq_true, List.all_eq_true] at hu
+    intro c hc
+    simp only [XUnit.chars, List.mem_cons, List.mem_append, List.mem_nil_iff, or_false] at hc
+    rcases hc with r | r | r
+    · subst r; exact k1
+    · exact nq c (hu.2 c r)
+    · subst r; exact k4
+  | dec ds =>
+    simp only [XUnit.ok, Bool.and_eq_true, List.all_eq_true] at hu
+    intro c hc
+    simp only [XUnit.chars, List.mem_cons, List.mem_append, List.mem_nil_iff, or_false] at hc
+    rcases hc with r | r | r | r
+    · subst r; exact k1
+    · subst r; exact k2
+    · exact hq' c (dig_hex c (hu.1.2 c r))
+    · subst r; exact k4
+  | hex ds =>
+    simp only [XUnit.ok, Bool.and_eq_true, List.all_eq_true] at hu
+    intro c hc
+    simp only [XUnit.chars, List.mem_cons, List.mem_append, List.mem_nil_iff, or_false] at hc
+    rcases hc with r | r | r | r | r
+    · subst r; exact k1
+    · subst r; exact k2
+    · subst r; exact k3
+    · exact hq' c (hu.1.2 c r)
+    · subst r; exact k4
+
+/-- unit-level description of `EscapeAttrVal`'s quote escaping -/
+def escU (q : Char) (esc : List Char) (u : XUnit) : XUnit :=
+  match u with
+  | .lit c => if c == q then .dec esc else .lit c
+  | u => u
+
+theorem escQuote_flat (q : Char) (hq : q = '"' ∨ q = '\'') (ds : List Char) (us : List XUnit)
+    (hok : us.all XUnit.ok = true) :
+    escQuote q ('&' :: '#' :: (ds ++ [';'])) (flat us) = flat (us.map (escU q ds)) := by
+  induction us with
+  | nil => simp [flat, escQuote]
+  | cons u r ih =>
+    simp only [List.all_cons, Bool.and_eq_true] at hok
+    rw [flat_cons, escQuote_append, ih hok.2, List.map_cons, flat_cons]
+    congr 1
+    cases u with
+    | lit c =>
+      by_cases hc : (c == q) = true
+      · simp [XUnit.chars, escQuote, escU, hc]
+      · simp [XUnit.chars, escQuote, escU, hc]
+    | named nm => exact escQuote_id q _ _ (ref_chars_noquote _ hok.1 (fun c h => by cases h) q hq)
+    | dec d => exact escQuote_id q _ _ (ref_chars_noquote _ hok.1 (fun c h => by cases h) q hq)
+    | hex d => exact escQuote_id q _ _ (ref_chars_noquote _ hok.1 (fun c h => by cases h) q hq)
+
+theorem escU_props (q : Char) (ds : List Char) (hq : q = '"' ∨ q = '\'')
+    (hds : (XUnit.dec ds).ok = true ∧ numVal 10 ds = q.toNat) (u : XUnit) (hu : u.ok = true) :
+    (escU q ds u).ok = true ∧ (escU q ds u).val true = u.val true ∧ escU q ds u ≠ .lit q := by
+  cases u with
+  | lit c =>
+    by_cases hc : (c == q) = true
+    · have : c = q := by simpa using hc
+      subst this
+      simp only [escU, hc, if_true]
+      refine ⟨hds.1, ?_, by simp⟩
+      rcases hq with r | r <;> subst r <;> simp [XUnit.val, hds.2] <;> decide
+    · simp only [escU, hc]
+      have : c ≠ q := by simpa using hc
+      exact ⟨hu, rfl, by simpa using this⟩
+  | named nm => exact ⟨hu, rfl, by simp [escU]⟩
+  | dec d => exact ⟨hu, rfl, by simp [escU]⟩
+  | hex d => exact ⟨hu, rfl, by simp [escU]⟩
+
+theorem unquote_wrap (q : Char) (hq : q = '"' ∨ q = '\'') (b : List Char) :
+    unquote (q :: (b ++ [q])) = some (q, b) := by
+  have : (q == '"' || q == '\'') = true := by rcases hq with r | r <;> subst r <;> decide
+  simp [unquote, this]
+
+/-- `EscapeAttrVal` on a sequence of units: a well-formed literal with the same normalised value -/
+theorem escapeAttrVal_flat (us : List XUnit) (hok : us.all XUnit.ok = true) :
+    attrValue (escapeAttrVal (flat us)) = us.map (XUnit.val true) ∧ WfAttrVal (escapeAttrVal (flat us)) := by
+  have h34 : (XUnit.dec ['3', '4']).ok = true ∧ numVal 10 ['3', '4'] = ('"' : Char).toNat := by decide
+  have h39 : (XUnit.dec ['3', '9']).ok = true ∧ numVal 10 ['3', '9'] = ('\'' : Char).toNat := by decide
+  have key : ∀ (q : Char) (ds : List Char), (q = '"' ∨ q = '\'') →
+      ((XUnit.dec ds).ok = true ∧ numVal 10 ds = q.toNat) →
+      attrValue (q :: (escQuote q ('&' :: '#' :: (ds ++ [';'])) (flat us) ++ [q])) = us.map (XUnit.val true) ∧
+      WfAttrVal (q :: (escQuote q ('&' :: '#' :: (ds ++ [';'])) (flat us) ++ [q])) := by
+    intro q ds hq hds
+    rw [escQuote_flat q hq ds us hok]
+    have hall : (us.map (escU q ds)).all XUnit.ok = true := by
+      simp only [List.all_map, List.all_eq_true, Function.comp] at hok ⊢
+      intro u hu; exact (escU_props q ds hq hds u (hok u hu)).1
+    constructor
+    · simp only [attrValue, unquote_wrap q hq]
+      rw [normAttr_flat _ hall, List.map_map]
+      apply List.map_congr_left
+      intro u hu
+      simp only [List.all_eq_true] at hok
+      exact (escU_props q ds hq hds u (hok u hu)).2.1
+    · refine ⟨q, us.map (escU q ds), hq, hall, ?_, rfl⟩
+      simp only [List.mem_map, not_exists, not_and]
+      intro u hu
+      simp only [List.all_eq_true] at hok
+      exact (escU_props q ds hq hds u (hok u hu)).2.2
+  unfold escapeAttrVal
+  simp only
+  split
+  · exact key '\'' ['3', '9'] (Or.inr rfl) h39
+  · exact key '"' ['3', '4'] (Or.inl rfl) h34
+
+/-- `ReplaceEntities` with the attribute table on a sequence of units -/
+theorem scan_attr (us : List XUnit) (hok : us.all XUnit.ok = true) :
+    ∃ us', replEnt XmlTables.entities XmlTables.attrRev (flat us) = flat us' ∧ us'.all XUnit.ok = true ∧
+      us'.map (XUnit.val true) = us.map (XUnit.val true) := by
+  induction us with
+  | nil => exact ⟨[], by simp [flat, replEnt, scan], by simp, rfl⟩
+  | cons u r ih =>
+    simp only [List.all_cons, Bool.and_eq_true] at hok
+    obtain ⟨r', e1, e2, e3⟩ := ih hok.2
+    unfold replEnt at e1 ⊢
+    by_cases hlit : ∃ c, u = .lit c
+    · obtain ⟨c, rfl⟩ := hlit
+      have hamp : (c == '&') = false := by
+        have := hok.1
+        simp only [XUnit.ok, litOk, Bool.and_eq_true, bne_iff_ne, ne_eq] at this
+        simpa using this.1.2
+      refine ⟨.lit c :: r', ?_, by simp [hok.1, e2], by simp [e3]⟩
+      simp [flat_cons, XUnit.chars, scan, hamp, e1]
+    · have hr : ∀ c, u ≠ .lit c := fun c h => hlit ⟨c, h⟩
+      obtain ⟨u', s1, s2, s3, s4⟩ := step_rev false XmlTables.attrRev attrRev_sound u (flat r) hok.1 hr
+      refine ⟨u' :: r', by rw [flat_cons, s1, e1, flat_cons], by simp [s2, e2], ?_⟩
+      simp only [List.map_cons, e3, List.cons.injEq, and_true]
+      have hu : u.val true = u.val false := by
+        cases u with
+        | lit c => exact absurd rfl (hr c)
+        | named _ => rfl
+        | dec _ => rfl
+        | hex _ => rfl
+      rw [hu, ← s3]
+      cases u' with
+      | lit c =>
+        obtain ⟨_, hl⟩ := s4 c rfl
+        by_cases hs : isS c = true
+        · simp only [isS, Bool.or_eq_true, beq_iff_eq] at hs
+          rcases hs with ((h | h) | h) | h
+          · subst h; decide
+          · subst h; have := attrRev_ws.1; rw [hl] at this; exact absurd this (by simp)
+          · subst h; have := attrRev_ws.2.1; rw [hl] at this; exact absurd this (by simp)
+          · subst h; have := attrRev_ws.2.2; rw [hl] at this; exact absurd this (by simp)
+        · simp [XUnit.val, hs]
+      | named _ => rfl
+      | dec _ => rfl
+      | hex _ => rfl
+
+/-- the attribute branch of `xml.go`: same normalised value, well-formed literal -/
+theorem attr_token (v : List Char) (hv : WfAttrVal v) :
+    attrValue (attrOut v) = attrValue v ∧ WfAttrVal (attrOut v) := by
+  obtain ⟨q, us, hq, hok, hnq, rfl⟩ := hv
+  rcases hq with rfl | rfl
+  · have h1 : attrOut ('"' :: (flat us ++ ['"'])) =
+        escapeAttrVal (replEnt XmlTables.entities XmlTables.attrRev (flat us)) := by
+      have hg : ('"' :: (flat us ++ ['"'])).getLast? = some '"' := by
+        have : '"' :: (flat us ++ ['"']) = ('"' :: flat us) ++ ['"'] := rfl
+        rw [this, List.getLast?_concat]
+      have hd : (List.drop 1 ('"' :: (flat us ++ ['"']))).dropLast = flat us := by simp
+      have hlen : ¬ (('"' :: (flat us ++ ['"'])).length < 2) := by simp
+      unfold attrOut
+      rw [hg, hd]
+      simp only [decide_eq_true_eq, hlen, List.head?_cons, bne_self_eq_false, Bool.or_self, decide_false,
+        Bool.false_eq_true, if_false]
+    obtain ⟨us', e1, e2, e3⟩ := scan_attr us hok
+    rw [h1, e1]
+    obtain ⟨a1, a2⟩ := escapeAttrVal_flat us' e2
+    refine ⟨?_, a2⟩
+    rw [a1, e3]
+    simp only [attrValue, unquote_wrap '"' (Or.inl rfl)]
+    exact (normAttr_flat us hok).symm
+  · have h1 : attrOut ('\'' :: (flat us ++ ['\''])) = '\'' :: (flat us ++ ['\'']) := by
+      simp [attrOut]
+    rw [h1]
+    exact ⟨rfl, '\'', us, Or.inr rfl, hok, hnq, rfl⟩
+
+
+/-! ### CDATA sections -/
+
+def cdU (c : Char) : XUnit :=
+  if c == '<' then .named ['l', 't'] else if c == '&' then .named ['a', 'm', 'p'] else .lit c
+
+theorem escCData_flat (t : List Char) : escCData t = flat (t.map cdU) := by
+  induction t with
+  | nil => rfl
+  | cons c r ih =>
+    simp only [escCData, List.map_cons, flat_cons, cdU]
+    split
+    · simp [XUnit.chars, ih]
+    · split
+      · simp [XUnit.chars, ih]
+      · simp [XUnit.chars, ih]
+
+theorem cdU_ok (c : Char) (h : isS c = true ∨ 32 ≤ c.toNat) : (cdU c).ok = true ∧ (cdU c).val false = lit c := by
+  unfold cdU
+  split
+  · next hc => have : c = '<' := by simpa using hc
+               subst this; decide
+  · split
+    · next hc => have : c = '&' := by simpa using hc
+                 subst this; decide
+    · next h1 h2 =>
+      refine ⟨?_, by simp [XUnit.val]⟩
+      simp only [XUnit.ok, litOk, Bool.and_eq_true, bne_iff_ne, ne_eq, Bool.or_eq_true, decide_eq_true_eq]
+      exact ⟨⟨by simpa using h1, by simpa using h2⟩, h⟩
+
+theorem escCData_length (t : List Char) :
+    (escCData t).length = t.length + (3 * t.count '<' + 4 * t.count '&') := by
+  induction t with
+  | nil => rfl
+  | cons c r ih =>
+    simp only [escCData, List.count_cons]
+    split
+    · next hc =>
+      have : c = '<' := by simpa using hc
+      subst this
+      simp [ih]; omega
+    · split
+      · next hc =>
+        have : c = '&' := by simpa using hc
+        subst this
+        simp [ih]; omega
+      · next h1 h2 =>
+        simp [ih, h1, h2]; omega
+
+/-- CDATA → text conversion keeps exactly the characters, yields well-formed character data, and the text is
+not longer than the section `<![CDATA[`…`]]>` (12 bytes of delimiters) -/
+theorem cdata_token (t e : List Char) (ht : WfCDataText t) (h : escapeCDATAVal t = some e) :
+    decodeText e = t.map lit ∧ e.length ≤ t.length + 12 ∧ (t ≠ [] → WfText e) := by
+  unfold escapeCDATAVal at h
+  split at h
+  · exact absurd h (by simp)
+  · next hn =>
+    simp only [Option.some.injEq] at h
+    subst h
+    have hok : (t.map cdU).all XUnit.ok = true := by
+      simp only [List.all_map, List.all_eq_true, Function.comp]
+      intro c hc; exact (cdU_ok c (ht c hc)).1
+    refine ⟨?_, ?_, ?_⟩
+    · rw [escCData_flat, decodeText_flat _ hok, List.map_map]
+      apply List.map_congr_left
+      intro c hc; exact (cdU_ok c (ht c hc)).2
+    · rw [escCData_length]; omega
+    · intro hne
+      exact ⟨t.map cdU, hok, escCData_flat t, by simpa using hne⟩
+
+/-! ## F. the loop -/
+
+theorem infoset_cons (t : XTok) (r : List XTok) : infoset (t :: r) = evTok t ++ infoset r := by
+  simp [infoset]
+
+theorem emitGo_skip (o : XmlOpts) (om : Bool) (n : Nat) (ts : List XTok) :
+    emitGo o om n ts = emitGo o om 0 (ts.drop n) := by
+  induction n generalizing ts with
+  | zero => simp
+  | succ n ih =>
+    cases ts with
+    | nil => simp [emitGo]
+    | cons c r => simp only [emitGo, List.drop_succ_cons]; exact ih r
+
+theorem infoset_emitText (d : List Char) (k : List XTok) :
+    infoset (emitText d k) = (decodeText d).map .ch ++ infoset k := by
+  unfold emitText
+  split
+  · next h =>
+    have : d = [] := by simpa using h
+    subst this; simp [decodeText, decodeGo]
+  · simp [infoset_cons, evTok]
+
+theorem wf_tail {t : XTok} {r : List XTok} (h : ∀ x ∈ t :: r, WfTokP x) : ∀ x ∈ r, WfTokP x :=
+  fun x hx => h x (by simp [hx])
+
+theorem cdata_head_ws (t : List Char) (ht : WfCDataText t) (h : startsWs t = true) :
+    ∃ c r, t = c :: r ∧ isWsD (lit c) = true := by
+  cases t with
+  | nil => simp [startsWs] at h
+  | cons c r =>
+    refine ⟨c, r, rfl, ?_⟩
+    simp only [startsWs] at h
+    rcases ht c (by simp) with hs | hs
+    · exact isWsD_lit_of_isS c hs
+    · rcases isWs_cases c h with q | q | q | q | q <;> subst q <;> first | decide | (revert hs; decide)
+
+/-- the `Peek` loop only removes white space in front of something that leads soft -/
+theorem peek_leadsSoft (o : XmlOpts) (r : List XTok) (hwf : ∀ x ∈ r, WfTokP x) (hs : lexShape false r = true)
+    (h : peekTrim o r = true) : leadsSoft o.keepWhitespace (infoset r) = true := by
+  induction r with
+  | nil => rfl
+  | cons t r ih =>
+    have hwr := wf_tail hwf
+    rw [infoset_cons]
+    cases t with
+    | startTag n => simpa [peekTrim, evTok, leadsSoft, Mark.isTag] using h
+    | endTag d n => simpa [peekTrim, evTok, leadsSoft, Mark.isTag] using h
+    | startTagPI n => simpa [evTok, leadsSoft, Mark.isTag] using ih hwr (by simpa [lexShape] using hs) (by simpa [peekTrim] using h)
+    | attr n v => simpa [evTok, leadsSoft, Mark.isTag] using ih hwr (by simpa [lexShape] using hs) (by simpa [peekTrim] using h)
+    | startTagClose => simp [lexShape] at hs
+    | startTagCloseVoid => simp [lexShape] at hs
+    | startTagClosePI => simpa [evTok, leadsSoft, Mark.isTag] using ih hwr (by simpa [lexShape] using hs) (by simpa [peekTrim] using h)
+    | comment d => simpa [evTok] using ih hwr (by simpa [lexShape] using hs) (by simpa [peekTrim] using h)
+    | doctype d => simpa [evTok, leadsSoft, Mark.isTag] using ih hwr (by simpa [lexShape] using hs) (by simpa [peekTrim] using h)
+    | text d =>
+      have hd : WfText d := hwf (.text d) (by simp)
+      obtain ⟨us, hok, rfl, hne⟩ := hd
+      simp only [peekTrim] at h
+      cases us with
+      | nil => exact absurd rfl hne
+      | cons u us' =>
+        rw [startsWs_flat_cons] at h
+        simp only [List.all_cons, Bool.and_eq_true] at hok
+        cases u with
+        | lit c =>
+          simp only at h
+          have hsS : isS c = true := by rw [← isWs_eq_isS_ok c hok.1]; exact h
+          have := decodeText_flat (XUnit.lit c :: us') (by simp [hok.1, hok.2])
+          simp only [evTok, this, List.map_cons, List.cons_append, leadsSoft, XUnit.val]
+          simpa using isWsD_lit_of_isS c hsS
+        | named _ => simp at h
+        | dec _ => simp at h
+        | hex _ => simp at h
+    | cdata d t =>
+      have ht : WfCDataText t := hwf (.cdata d t) (by simp)
+      simp only [peekTrim] at h
+      obtain ⟨c, r', rfl, hc⟩ := cdata_head_ws t ht h
+      simp [evTok, leadsSoft, hc]
+
+
+theorem join_tail (t : XTok) (r : List XTok) (h : trigCdataJoin (t :: r) = false) : trigCdataJoin r = false := by
+  cases t <;> simp_all [trigCdataJoin]
+
+theorem keep_tail (K : Bool) (t : XTok) (r : List XTok) (h : trigKeepEmpty K (t :: r) = false) :
+    trigKeepEmpty K r = false := by
+  simp only [trigKeepEmpty, Bool.or_eq_false_iff] at h
+  exact h.2
+
+theorem collapseSkip_cases (r : List XTok) :
+    collapseSkip r = none ∨
+    (∃ d n r', r = .endTag d n :: r' ∧ collapseSkip r = some 1) ∨
+    (∃ d d2 n r', r = .text d :: .endTag d2 n :: r' ∧ allWs d = true ∧ collapseSkip r = some 2) := by
+  unfold collapseSkip
+  split
+  · next d n r' => exact Or.inr (Or.inl ⟨d, n, r', rfl, rfl⟩)
+  · next d d2 n r' =>
+    by_cases h : allWs d = true
+    · exact Or.inr (Or.inr ⟨d, d2, n, r', rfl, h, by simp [h]⟩)
+    · left; simp [h]
+  · left; rfl
+
+/-- a text token made of white space only -/
+theorem allWs_text (d : List Char) (hd : WfText d) (h : allWs d = true) :
+    d.all isS = true ∧ decodeText d ≠ [] ∧ ∀ x ∈ decodeText d, isWsD x = true := by
+  obtain ⟨us, hok, rfl, hne⟩ := hd
+  have key : ∀ us : List XUnit, us.all XUnit.ok = true → allWs (flat us) = true →
+      (flat us).all isS = true ∧ ∀ x ∈ us.map (XUnit.val false), isWsD x = true := by
+    intro us
+    induction us with
+    | nil => intro _ _; simp [flat]
+    | cons u r ih =>
+      intro hok h
+      simp only [List.all_cons, Bool.and_eq_true] at hok
+      rw [flat_cons] at h ⊢
+      simp only [allWs, List.all_append, Bool.and_eq_true] at h
+      obtain ⟨i1, i2⟩ := ih hok.2 (by simpa [allWs] using h.2)
+      cases u with
+      | lit c =>
+        have hw : isWs c = true := by simpa [XUnit.chars] using h.1
+        have hs : isS c = true := by rw [← isWs_eq_isS_ok c hok.1]; exact hw
+        refine ⟨by simp [XUnit.chars, hs, i1], ?_⟩
+        intro x hx
+        simp only [List.map_cons, List.mem_cons] at hx
+        rcases hx with rfl | hx
+        · simpa [XUnit.val] using isWsD_lit_of_isS c hs
+        · exact i2 x hx
+      | named nm => simp [XUnit.chars] at h; exact absurd h.1.1 (by decide)
+      | dec ds => simp [XUnit.chars] at h; exact absurd h.1.1 (by decide)
+      | hex ds => simp [XUnit.chars] at h; exact absurd h.1.1 (by decide)
+  obtain ⟨k1, k2⟩ := key us hok h
+  rw [decodeText_flat us hok]
+  exact ⟨k1, by simpa using hne, k2⟩
+
+theorem afterC_last_ws (V : List DCh) (h : lastWs V) (p ps : Bool) : (afterC p ps V).1 = true := by
+  obtain ⟨V3, w, rfl, hw⟩ := h
+  rw [afterC_append_ws V3 w hw]
+
+set_option maxHeartbeats 1000000 in
+/-- the loop of `xml.go` preserves the canonical form of the infoset (state invariant: `omitSpace` is set only
+when white space is pending in the output, the previous solid is soft, or the next text does not start with
+white space) -/
+theorem loop_aux (o : XmlOpts) (n : Nat) : ∀ ts : List XTok, ts.length ≤ n →
+    (∀ x ∈ ts, WfTokP x) → ∀ (om tg p ps : Bool), lexShape tg ts = true →
+    (tg = true → o.keepWhitespace = true → om = false) →
+    (om = true → ps = true ∨ p = true ∨ nextTextLeadsS ts = false) →
+    trigCdataJoin ts = false → trigKeepEmpty o.keepWhitespace ts = false →
+    canonGo o.keepWhitespace p ps (infoset (emitGo o om 0 ts)) =
+      canonGo o.keepWhitespace p ps (infoset ts) := by
+  induction n with
+  | zero =>
+    intro ts hl _ om tg p ps _ _ _ _ _
+    have : ts = [] := List.length_eq_zero_iff.mp (by omega)
+    subst this; rfl
+  | succ n ih =>
+    intro ts hl hwf om tg p ps hsh htg hom hj hk
+    cases ts with
+    | nil => rfl
+    | cons t r =>
+      simp only [List.length_cons] at hl
+      have hlr : r.length ≤ n := by omega
+      have hwr := wf_tail hwf
+      have hjr := join_tail t r hj
+      have hkr := keep_tail _ t r hk
+      cases t with
+      | startTag nm =>
+        simp only [emitGo, infoset_cons, evTok, List.singleton_append, canonGo, Mark.isTag, if_true]
+        congr 1
+        apply ih r hlr hwr _ true false _ (by simpa [lexShape] using hsh)
+        · intro _ hK; simp [hK]
+        · intro h
+          left
+          cases hK : o.keepWhitespace with
+          | true => simp [hK] at h
+          | false => rfl
+        · exact hjr
+        · exact hkr
+      | endTag d nm =>
+        simp only [emitGo, infoset_cons, evTok, List.singleton_append, canonGo, Mark.isTag, if_true]
+        congr 1
+        apply ih r hlr hwr _ false false _ (by simpa [lexShape] using hsh)
+        · intro h; exact absurd h (by simp)
+        · intro h
+          left
+          cases hK : o.keepWhitespace with
+          | true => simp [hK] at h
+          | false => rfl
+        · exact hjr
+        · exact hkr
+      | attr nm v =>
+        have hv : WfAttrVal v := hwf (.attr nm v) (by simp)
+        simp only [emitGo, infoset_cons, evTok, List.singleton_append, canonGo, Mark.isTag,
+          Bool.false_eq_true, if_false, (attr_token v hv).1]
+        congr 1
+        exact ih r hlr hwr om tg p ps (by simpa [lexShape] using hsh) htg
+          (by simpa [nextTextLeadsS] using hom) hjr hkr
+      | startTagPI nm =>
+        simp only [emitGo, infoset_cons, evTok, List.singleton_append, canonGo, Mark.isTag,
+          Bool.false_eq_true, if_false]
+        congr 1
+        exact ih r hlr hwr om false p ps (by simpa [lexShape] using hsh) (fun h => absurd h (by simp))
+          (by simpa [nextTextLeadsS] using hom) hjr hkr
+      | startTagClosePI =>
+        simp only [emitGo, infoset_cons, evTok, List.singleton_append, canonGo, Mark.isTag,
+          Bool.false_eq_true, if_false]
+        congr 1
+        exact ih r hlr hwr om false p ps (by simpa [lexShape] using hsh) (fun h => absurd h (by simp))
+          (by simpa [nextTextLeadsS] using hom) hjr hkr
+      | doctype d =>
+        simp only [emitGo, infoset_cons, evTok, List.singleton_append, canonGo, Mark.isTag,
+          Bool.false_eq_true, if_false]
+        congr 1
+        exact ih r hlr hwr om false p ps (by simpa [lexShape] using hsh) (fun h => absurd h (by simp))
+          (by simpa [nextTextLeadsS] using hom) hjr hkr
+      | comment d =>
+        simp only [emitGo, infoset_cons, evTok, List.nil_append]
+        exact ih r hlr hwr om false p ps (by simpa [lexShape] using hsh) (fun h => absurd h (by simp))
+          (by simpa [nextTextLeadsS] using hom) hjr hkr
+      | startTagCloseVoid =>
+        simp only [lexShape, Bool.and_eq_true] at hsh
+        simp only [emitGo, infoset_cons, evTok, List.singleton_append, canonGo, Mark.isTag, if_true]
+        congr 1
+        apply ih r hlr hwr om false false _ hsh.2 (fun h => absurd h (by simp))
+        · intro h
+          left
+          cases hK : o.keepWhitespace with
+          | true => have := htg hsh.1 hK; rw [this] at h; exact absurd h (by simp)
+          | false => rfl
+        · exact hjr
+        · exact hkr
+      | startTagClose =>
+        simp only [lexShape, Bool.and_eq_true] at hsh
+        rcases collapseSkip_cases r with hc | ⟨d, nm, r', rfl, hc⟩ | ⟨d, d2, nm, r', rfl, haw, hc⟩
+        · simp only [emitGo, hc, infoset_cons, evTok, List.nil_append]
+          exact ih r hlr hwr om false p ps hsh.2 (fun h => absurd h (by simp))
+            (by simpa [nextTextLeadsS] using hom) hjr hkr
+        · simp only [emitGo, hc, infoset_cons, evTok, List.nil_append, List.singleton_append, canonGo,
+            Mark.isTag, if_true]
+          congr 1
+          apply ih r' (by simp at hlr; omega) (wf_tail hwr) om false false _
+            (by simpa [lexShape] using hsh.2) (fun h => absurd h (by simp))
+          · intro h
+            left
+            cases hK : o.keepWhitespace with
+            | true => have := htg hsh.1 hK; rw [this] at h; exact absurd h (by simp)
+            | false => rfl
+          · exact join_tail _ _ hjr
+          · exact keep_tail _ _ _ hkr
+        · have hd : WfText d := hwf (.text d) (by simp)
+          obtain ⟨a1, a2, a3⟩ := allWs_text d hd haw
+          have hK : o.keepWhitespace = false := by
+            simp only [trigKeepEmpty, isCloseWsEnd, a1, Bool.and_true, Bool.or_eq_false_iff] at hk
+            exact hk.1
+          have hskip : emitGo o om 2 (.text d :: .endTag d2 nm :: r') = emitGo o om 0 r' := by
+            rw [emitGo_skip]; rfl
+          simp only [emitGo, hc, infoset_cons, evTok, List.nil_append, List.singleton_append]
+          rw [canon_ws_run _ (decodeText d) a2 a3]
+          simp only [canonGo, Mark.isTag, if_true, hK, Bool.and_false, Bool.not_false]
+          congr 1
+          have := ih r' (by simp at hlr; omega) (wf_tail (wf_tail hwr)) om false false true
+            (by simpa [lexShape] using hsh.2) (fun h => absurd h (by simp)) (fun _ => Or.inl rfl)
+            (join_tail _ _ (join_tail _ _ hjr)) (keep_tail _ _ _ (keep_tail _ _ _ hkr))
+          rw [hK] at this
+          exact this
+      | cdata data txt =>
+        have ht : WfCDataText txt := hwf (.cdata data txt) (by simp)
+        by_cases hemp : txt = []
+        · subst hemp
+          simp only [emitGo, List.isEmpty_nil, if_true, infoset_cons, evTok, List.map_nil, List.nil_append]
+          exact ih r hlr hwr om false p ps (by simpa [lexShape] using hsh) (fun h => absurd h (by simp))
+            (by simpa [nextTextLeadsS] using hom) hjr hkr
+        · have hne : txt.isEmpty = false := by simpa using hemp
+          have hev2 : evTok (XTok.cdata data txt) = (txt.map lit).map .ch := by simp [evTok]
+          have hemit : ∃ tok : XTok, evTok tok = (txt.map lit).map .ch ∧
+              emitGo o om 0 (XTok.cdata data txt :: r) = tok :: emitGo o (if endsWs txt then true else om) 0 r := by
+            cases he : escapeCDATAVal txt with
+            | none => exact ⟨_, hev2, by simp [emitGo, hne, he]⟩
+            | some e =>
+              refine ⟨XTok.text e, ?_, by simp [emitGo, hne, he]⟩
+              simp [evTok, (cdata_token txt e ht he).1]
+          obtain ⟨tok, htok, hem⟩ := hemit
+          rw [hem, infoset_cons, infoset_cons, htok, hev2, canon_chars, canon_chars]
+          congr 1
+          apply ih r hlr hwr _ false _ _ (by simpa [lexShape] using hsh) (fun h => absurd h (by simp))
+          · intro h
+            by_cases hew : endsWs txt = true
+            · right; left
+              obtain ⟨a, c, rfl⟩ := exists_concat txt hemp
+              rw [endsWs_append_singleton] at hew
+              have hcs : isWsD (lit c) = true := by
+                rcases ht c (by simp) with hs | hs
+                · exact isWsD_lit_of_isS c hs
+                · rcases isWs_cases c hew with q | q | q | q | q <;> subst q <;>
+                    first | decide | (revert hs; decide)
+              apply afterC_last_ws
+              exact ⟨a.map lit, lit c, by simp, hcs⟩
+            · right; right
+              simp only [hew, Bool.false_eq_true, if_false] at h
+              simp only [trigCdataJoin, hne, Bool.not_false, Bool.true_and, Bool.or_eq_false_iff,
+                Bool.and_eq_false_iff, Bool.not_eq_false'] at hj
+              rcases hj.1 with hl | hl
+              · exfalso
+                obtain ⟨a, c, rfl⟩ := exists_concat txt hemp
+                rw [endsWs_append_singleton] at hew
+                have : isS c = true := by simpa [lastIsS] using hl
+                exact hew (isWs_of_isS c this)
+              · exact hl
+          · exact hjr
+          · exact hkr
+      | text d =>
+        have hd : WfText d := hwf (.text d) (by simp)
+        have hshr : lexShape false r = true := by simpa [lexShape] using hsh
+        obtain ⟨V1, hV1, h1, h2, V2, hV2, hcases, _⟩ := text_token o om d r hd
+        have hpeek : peekTrim o r = true → leadsSoft o.keepWhitespace (infoset r) = true :=
+          peek_leadsSoft o r hwr hshr
+        -- left trim is invisible
+        have hleft : ∀ X, canonGo o.keepWhitespace p ps (V2.map .ch ++ X) =
+            canonGo o.keepWhitespace p ps (V1.map .ch ++ X) := by
+          intro X
+          rcases hV2 with rfl | ⟨homt, w, hw, rfl⟩
+          · rfl
+          · have := hom homt
+            have e : nextTextLeadsS (XTok.text d :: r) = true := by
+              simp only [nextTextLeadsS]; rw [← h2]; simp [headIsWsD, hw]
+            rw [e] at this
+            have hpp : ps = true ∨ p = true := by
+              rcases this with q | q | q
+              · exact Or.inl q
+              · exact Or.inr q
+              · exact absurd q (by simp)
+            simpa using canon_trim_left _ p ps w hw (V2.map .ch ++ X) hpp
+        have hpp0 : V2 = [] → ps = true ∨ p = true := by
+          intro hV
+          rcases hV2 with rfl | ⟨homt, w, hw, rfl⟩
+          · exact absurd hV hV1
+          · have := hom homt
+            have e : nextTextLeadsS (XTok.text d :: r) = true := by
+              simp only [nextTextLeadsS]; rw [← h2]; simp [headIsWsD, hw]
+            rw [e] at this
+            rcases this with q | q | q
+            · exact Or.inl q
+            · exact Or.inr q
+            · exact absurd q (by simp)
+        simp only [emitGo, infoset_cons, evTok, infoset_emitText]
+        rw [← h1 o.keepWhitespace p ps (infoset r), ← hleft]
+        rcases hcases with ⟨hV, hs⟩ | ⟨hdec, hne, hs⟩ | ⟨V3, w, hV, hw, hdec, hs2, hp⟩
+        · rw [hs, hV]
+          simp only [decodeText, decodeGo, List.map_nil, List.nil_append]
+          apply ih r hlr hwr true false p ps hshr (fun h => absurd h (by simp))
+          · intro _
+            rcases hpp0 hV with q | q
+            · exact Or.inl q
+            · exact Or.inr (Or.inl q)
+          · exact hjr
+          · exact hkr
+        · rw [hdec, canon_chars, canon_chars]
+          congr 1
+          apply ih r hlr hwr _ false _ _ hshr (fun h => absurd h (by simp))
+          · intro h
+            rcases hs with ⟨_, hl⟩ | hf
+            · right; left; exact afterC_last_ws V2 hl _ _
+            · rw [hf] at h; exact absurd h (by simp)
+          · exact hjr
+          · exact hkr
+        · rw [hdec, hs2, hV, ← canon_trim_right _ p ps V3 w hw (infoset r) (hpeek hp), canon_chars, canon_chars]
+          congr 1
+          exact ih r hlr hwr false false _ _ hshr (fun h => absurd h (by simp))
+            (fun h => absurd h (by simp)) hjr hkr
 
 
 end Verif.Proofs.Xml
